@@ -114,4 +114,16 @@ MUTANTS = {
         "transports_not_closed": [("_engine.py", "        for wrapped_transport in itertools.chain(self.senders, self.readers):\n            wrapped_transport.transport.close()", "        pass")],
         "sync_close_skips_goodbye": [("_core.py", "            else:\n                self.unregister_all_services()", "            else:\n                pass")],
     },
+    "C09": {
+        "check_time_doubled": [("const.py", "_CHECK_TIME = 175", "_CHECK_TIME = 350")],
+        "two_probes": [("_core.py", "        while i < _REGISTER_BROADCASTS:\n            # check for a name conflict", "        while i < 2:\n            # check for a name conflict")],
+        "conflict_check_only_first": [("_core.py", "            while self.cache.current_entry_with_name_and_alias(info.type, info.name):", "            while i == 0 and self.cache.current_entry_with_name_and_alias(info.type, info.name):")],
+        "rename_keeps_counter": [("_core.py", "                next_time = now\n                i = 0\n", "                next_time = now\n")],
+        "announce_without_addresses": [("_core.py", "        return asyncio.ensure_future(self._async_broadcast_service(info, _REGISTER_TIME, None))\n\n    def update_service", "        return asyncio.ensure_future(self._async_broadcast_service(info, _REGISTER_TIME, None, False))\n\n    def update_service")],
+        "probe_qm": [("_core.py", "        out.add_question(DNSQuestion(info.type, _TYPE_PTR, _CLASS_IN | _CLASS_UNIQUE))", "        out.add_question(DNSQuestion(info.type, _TYPE_PTR, _CLASS_IN))")],
+        "expired_conflict_counts": [("_cache.py", "                and not record.is_expired(now)\n", "")],
+        "announce_interval_short": [("const.py", "_REGISTER_TIME = 225", "_REGISTER_TIME = 125")],
+        "rename_skips_number": [("_core.py", "                next_instance_number += 1\n", "                next_instance_number += 2\n")],
+        "ptr_flush_bit": [("_services/info.py", "            self.type,\n            _TYPE_PTR,\n            _CLASS_IN,", "            self.type,\n            _TYPE_PTR,\n            _CLASS_IN_UNIQUE,")],
+    },
 }
